@@ -171,8 +171,11 @@ def api_ob(vt, kind, tier):
     tabs = opc_tables()
     opc = tabs["opcode_%d%d" % vt]
     word = vt >= (3, 6)
-    op = {"jrel": _pick(opc, ["JUMP_FORWARD"]), "const": _pick(opc, ["LOAD_CONST"]), "name": _pick(opc, ["LOAD_NAME"]),
-          "jabs": _pick(opc, ["JUMP_ABSOLUTE", "JUMP_BACKWARD", "POP_JUMP_IF_TRUE"])}[kind]
+    if isinstance(kind, int):
+        op, kind = kind, "jop%d" % kind         # one obligation per jump opcode of the version
+    else:
+        op = {"jrel": _pick(opc, ["JUMP_FORWARD"]), "const": _pick(opc, ["LOAD_CONST"]), "name": _pick(opc, ["LOAD_NAME"]),
+              "jabs": _pick(opc, ["JUMP_ABSOLUTE", "JUMP_BACKWARD", "POP_JUMP_IF_TRUE"])}[kind]
     nop = _pick(opc, ["NOP", "POP_TOP"])
     params = [("x", (0, 255)), ("shift", (0, 5))]
     use_src = vt >= (3, 6)
@@ -181,7 +184,14 @@ def api_ob(vt, kind, tier):
     def body(x, shift):
         from xdis.std import make_std_api
         api = make_std_api(vt)
-        if word:
+        if word and kind.startswith("jop"):
+            # room in front for backward jumps
+            items = [nop, 0] * 8 + [op, x]
+            for _ in range(cache_entries(opc, op)):
+                items += [0, 0]
+            items += [nop, 0]
+            jump_off, next_off = 16, 18
+        elif word:
             items = [nop, 0, op, x]
             for _ in range(cache_entries(opc, op)):
                 items += [0, 0]
@@ -220,7 +230,7 @@ def api_ob(vt, kind, tier):
                 assert g.offset == r["offset"] and g.opcode == r["opcode"] and g.opname == r["opname"], \
                     "make_std_api(%r) stream: (%r, %r, %r) vs dis %d.%d (%r, %r, %r)" % (vt, g.offset, g.opcode, g.opname, vt[0], vt[1], r["offset"], r["opcode"], r["opname"])
                 assert _eq(g.arg, r["arg"]), "arg"
-                if r["offset"] == jump_off and kind != "const":
+                if r["offset"] == jump_off and kind != "const" and not (kind.startswith("jop") and not isinstance(r["argval"], int)):
                     assert _eq(g.argval, r["argval"]), "argval: %r vs dis %r" % (g.argval, r["argval"])
                 assert bool(g.is_jump_target) == bool(r["is_jump_target"]), "is_jump_target at %d" % r["offset"]
             rl = list(oracles.load_dis(vt).findlabels(code_bytes))
@@ -461,6 +471,12 @@ def generate(tier, seed):
             oracles.load_dis(vt)
         for kind in ("jrel", "const", "name", "jabs"):
             obs.append(api_ob(vt, kind, tier))
+        if vt >= (3, 6):
+            d = oracles.opcode_dump(vt)["opcode"]
+            topc = tabs["opcode_%d%d" % vt]
+            for jop in sorted(set(d["hasjrel"]) | set(d["hasjabs"]) | set(topc.hasjrel) | set(topc.hasjabs)):
+                if jop < 256 and topc.opname[jop] in topc.opmap and topc.opname[jop] not in ("JUMP_FORWARD",):
+                    obs.append(api_ob(vt, jop, tier))
         if vt <= (3, 10):
             for n in ((1, 2) if tier == "quick" else (1, 2, 3)):
                 obs.append(api_lines_ob(vt, n, tier))
